@@ -48,6 +48,8 @@ func VerifC20_V2Lifecycle() {
 		sym.Reach("new")
 		sym.Assert(cg.Existing() == existed, "Existing() must tell whether the directory was there before New")
 		sym.Assert(m.dirs[root+"/p/a"], "the group must exist after New")
+		lerr := cg.SetProcLimit(7)
+		sym.Assert(lerr == nil && m.files[root+"/p/a/pids.max"] == "7", "a limit set through the new handle did not reach its own group")
 		err = cg.Destroy()
 		sym.Assert(err == nil, "Destroy must succeed")
 		sym.Assert(m.dirs[root+"/p/a"] == existed, "Destroy must remove the group iff this handle created it")
@@ -274,6 +276,9 @@ func VerifC20_V1Lifecycle() {
 	if !cpuPre && !memPre {
 		sym.Assert(!cg.Existing(), "a freshly created group must be owned by its handle")
 	}
+	// the handle controls its own group whether or not the directories pre-existed
+	lerr := cg.SetMemoryLimit(4194304)
+	sym.Assert(lerr == nil && m.files[root+"/memory/p/job/memory.limit_in_bytes"] == "4194304", "a limit set through the new handle did not reach its own group")
 	cg.Destroy()
 	if cpuPre {
 		sym.Assert(m.dirs[root+"/cpu/p/job"], "Destroy removed a cpu directory that existed before this handle")
@@ -312,4 +317,53 @@ func VerifC20_AddProcMany() {
 		}
 		sym.Assert(w[0] == dec(ca) && w[1] == dec(cb), "each write must be exactly the decimal pid")
 	}
+}
+
+// VerifC20_V2ConcurrentSubNew / VerifC20_V1ConcurrentSubNew: two threads create the same
+// sub-group through one parent handle ((*V2).New / (*V1).New, the path Random takes) at the
+// same time, all interleavings of their stat/mkdir steps within the delay bound: at most one
+// of them owns (and will remove) the group.
+func VerifC20_V2ConcurrentSubNew() {
+	m := baseFS()
+	ct := &Controllers{CPU: true, Memory: true, Pids: true}
+	parent := &V2{path: root + "/p", control: ct, existing: true}
+	var cgA, cgB Cgroup
+	var errA, errB error
+	go func() { cgA, errA = parent.New("job") }()
+	go func() { cgB, errB = parent.New("job") }()
+	sym.WaitOthers()
+	owners := 0
+	if errA == nil && cgA != nil && !cgA.Existing() {
+		owners++
+	}
+	if errB == nil && cgB != nil && !cgB.Existing() {
+		owners++
+	}
+	sym.Reach("both-done")
+	sym.Assert(errA == nil && errB == nil, "creating a sub-group that another thread creates at the same time must not fail")
+	sym.Assert(owners <= 1, "two concurrent creators both own (and will both remove) the same sub-group")
+	sym.Assert(m.dirs[root+"/p/job"], "the sub-group must exist")
+}
+
+func VerifC20_V1ConcurrentSubNew() {
+	m := installFS()
+	for _, d := range []string{"/sys", "/sys/fs", root, root + "/memory", root + "/memory/p"} {
+		m.dirs[d] = true
+	}
+	parent := &V1{prefix: "p", memory: newV1Controller(root + "/memory/p")}
+	parent.all = []*v1controller{parent.memory}
+	var cgA, cgB Cgroup
+	var errA, errB error
+	go func() { cgA, errA = parent.New("job") }()
+	go func() { cgB, errB = parent.New("job") }()
+	sym.WaitOthers()
+	owners := 0
+	if errA == nil && cgA != nil && !cgA.Existing() {
+		owners++
+	}
+	if errB == nil && cgB != nil && !cgB.Existing() {
+		owners++
+	}
+	sym.Reach("both-done")
+	sym.Assert(owners <= 1, "two concurrent creators both own (and will both remove) the same v1 sub-group")
 }
